@@ -71,6 +71,22 @@ def handle : Handler := fun j => do
     | none => pure (Json.mkObj [("none", true)])
     | some r => pure (Json.mkObj [("env", envToJson r.sh.env), ("funcs", envToJson r.funcs), ("out", ofStrs r.out),
                                   ("status", Json.num (JsonNumber.fromNat r.status))])
+  | "cli" =>
+    let o ← j.getObjVal? "cli"
+    let w ← j.getObjVal? "world"
+    let c : Cli := { help := ← jbool o "help", version := ← jbool o "version", list := ← jbool o "list",
+                     unsetup := ← jbool o "unsetup", nodepend := ← jbool o "nodepend",
+                     maxDepth := (← (← o.getObjVal? "maxDepth").getInt?),
+                     tablefile := ← jstrOpt o "tablefile", productDir := ← jstrOpt o "productDir",
+                     args := ← jstrs o "args" }
+    let wd : CliWorld := { tablefileExists := ← jbool w "tablefileExists", upsIsDir := ← jbool w "upsIsDir",
+                           tables := ← jstrs w "tables", found := ← jbool w "found" }
+    let inner ← match (← (← j.getObjVal? "inner").getStr?) with
+      | "returned" => pure (Inner.returned (← jstrs j "cmds"))
+      | "EupsException" => pure Inner.eupsException
+      | _ => pure Inner.otherException
+    let r := runCli c wd inner
+    pure (Json.mkObj [("stdout", ofStrOpt r.stdout), ("status", Json.num (JsonNumber.fromNat r.status))])
   | "acts" =>
     let base ← envOfJson (← j.getObjVal? "base")
     let acts ← (← jarr j "acts").mapM actOfJson
